@@ -1,4 +1,4 @@
 From Coq Require Import Extraction ExtrOcamlBasic.
 From LCP Require Import Base.ExtractBase Base.CheckedMem Events.EventsTrace Events.EventsSpec Events.EventsModel.
 Extraction Language OCaml.
-Extraction "events.ml" force_number_types run_case check_c04 check_c05.
+Extraction "events.ml" force_number_types run_case check_c04 check_c05 check_c14_events.
